@@ -84,7 +84,9 @@ ChkRuns(e) ==
       advmax     |-> e.advmax = SetMax({wr[j][1] : j \in 1..Len(wr)}),
       decode_ok  |-> e.ok,
       rt_widths  |-> e.dw = wr,
-      rt_lsb     |-> e.dl = lr]
+      rt_lsb     |-> e.dl = lr,
+      \* Decode, edit the trailing widths, Encode, Decode: the edited widths (logged as runs) come back
+      rt_edited  |-> e.edw = Canon(e.ew)]
 
 ChkHead(e) ==
   LET f == e.in
